@@ -11,6 +11,7 @@ bootstrap.ensure()
 
 ID = "C18"
 LEVEL = "exploration"
+TECHNIQUE = "runtime monitoring: phase-partitioned iteration-start counters on instrumented leaf payloads"
 RULE = (
     "seeded random iteration-engine programs over leaves whose payload is a CountingRows object (implements only "
     "__iter__ and __len__, logs every iteration start and every row pulled).  Phase-partitioned counters (build / "
